@@ -94,13 +94,13 @@ theorem kept_final (b : BState) : ∀ s ∈ finalWant b, Kept b.utd s → ∀ t,
 statement for the result. -/
 theorem trash_safe_of_guar (env : Env) (classes : List Class) (sorter : Class → List Slot → List Slot)
     (mounts : List Mount) (reps : List Replica)
-    (hok : BalanceOK env classes sorter mounts reps) (hid : DistinctIds mounts) (hcons : DeviceConsistent mounts)
+    (hok : BalancePerm env classes sorter mounts reps) (hid : DistinctIds mounts) (hcons : DeviceConsistent mounts)
     (c : Class)
     (hg : Guar c (env.desired c) (balanceBlock env classes sorter mounts reps).final.utd
       (balanceBlock env classes sorter mounts reps).final.slots) :
     min (env.desired c) (physRepl c (balanceBlock env classes sorter mounts reps).heldBefore) ≤
       physRepl c (balanceBlock env classes sorter mounts reps).heldAfter := by
-  unfold BalanceOK at hok
+  unfold BalancePerm at hok
   generalize hb : (balanceBlock env classes sorter mounts reps).final = b at hg
   have hbdef : b = runClasses env sorter classes { slots := initSlots mounts reps, utd := [], underrep := false } := by
     rw [← hb]; rfl
@@ -288,11 +288,11 @@ theorem countedSafe_sum (c : Class) (l : List Slot) (hid : IdsDistinct l) (hkc :
 /-- if the physical replication of some class of the loop is below desired, the flag is set -/
 theorem underrep_of_phys (env : Env) (classes : List Class) (sorter : Class → List Slot → List Slot)
     (mounts : List Mount) (reps : List Replica)
-    (hok : BalanceOK env classes sorter mounts reps) (hid : DistinctIds mounts) (hcons : DeviceConsistent mounts)
+    (hok : BalancePerm env classes sorter mounts reps) (hid : DistinctIds mounts) (hcons : DeviceConsistent mounts)
     (c : Class) (hc : c ∈ classes) (hd : env.desired c ≠ 0)
     (hu : physRepl c (heldOf (initSlots mounts reps)) < env.desired c) :
     (balanceBlock env classes sorter mounts reps).final.underrep = true := by
-  unfold BalanceOK at hok
+  unfold BalancePerm at hok
   apply runClasses_underrep env sorter c classes _ hok hc hd
   intro l hl
   have hmnt : (l.map (·.mnt)).Perm mounts := by
